@@ -75,6 +75,9 @@ type iniSection []iniValue
 type ini struct {
 	File     string
 	Sections map[string]iniSection
+
+	// The section names in the order in which they first appear
+	sectionNames []string
 }
 
 // NewIniParser creates a new ini parser for a given Parser.
@@ -412,6 +415,8 @@ func readIni(contents io.Reader, filename string) (*ini, error) {
 	ret := &ini{
 		File:     filename,
 		Sections: make(map[string]iniSection),
+
+		sectionNames: []string{""},
 	}
 
 	reader := bufio.NewReader(contents)
@@ -466,6 +471,7 @@ func readIni(contents io.Reader, filename string) (*ini, error) {
 			if section == nil {
 				section = make(iniSection, 0, 10)
 				ret.Sections[name] = section
+				ret.sectionNames = append(ret.sectionNames, name)
 			}
 
 			continue
@@ -558,7 +564,10 @@ func (i *IniParser) parse(ini *ini) error {
 
 	var quotesLookup = make(map[*Option]bool)
 
-	for name, section := range ini.Sections {
+	// Apply the sections in the order of the file, so that the outcome does
+	// not depend on the iteration order of the sections map
+	for _, name := range ini.sectionNames {
+		section := ini.Sections[name]
 		groups := i.matchingGroups(name)
 
 		if len(groups) == 0 {
